@@ -226,6 +226,31 @@ def run(ctx):
                 same = back == expect and (name != "f64" or struct.pack(">d", back) == struct.pack(">d", py))
                 if not same:
                     prop_bad.append({"type": name, "value": repr(py)[:80], "what": f"member read back as {back!r}"[:160]})
+    # aware datetimes in DST-observing zones (zoneinfo), in and around the repeated and the skipped hour, both folds: members
+    # exactly when the instant is non-negative (and, for TZAware, on a whole millisecond); the constructor returns them unchanged
+    import zoneinfo as _zi
+    for zname, y, mo, d in (("America/New_York", 2024, 11, 3), ("Europe/Berlin", 2023, 10, 29), ("Europe/London", 2024, 3, 31),
+                            ("Europe/Berlin", 1969, 12, 31), ("Pacific/Auckland", 2024, 4, 7)):
+        z = _zi.ZoneInfo(zname)
+        for hh in (0, 1, 2, 3, 23):
+            for fold in (0, 1):
+                for us in (0, 250000, 250500):
+                    v = datetime.datetime(y, mo, d, hh, 30, 7, us, tzinfo=z, fold=fold)
+                    inst_us = (v.astimezone(datetime.timezone.utc) - EPOCH) // US
+                    for t, name, want in ((P.TZAware, "TZAware", inst_us >= 0 and inst_us % 1000 == 0), (P.TZAwareMicros, "TZAwareMicros", inst_us >= 0)):
+                        try:
+                            got = isinstance(v, t)
+                        except Exception as e:  # noqa
+                            got = f"raised {type(e).__name__}"
+                        try:
+                            ctor = "same" if t(v) is v else "different"
+                        except TypeError:
+                            ctor = "TypeError"
+                        except Exception as e:  # noqa
+                            ctor = f"raised {type(e).__name__}"
+                        if got is not want or ctor != ("same" if want else "TypeError"):
+                            prop_bad.append({"type": name, "value": f"{v!r} (fold={fold})",
+                                             "what": f"isinstance={got}, constructor={ctor}; the documented domain says member={want}"})
     # values that are instances of SUBCLASSES of int (IntEnum members - the library's own ErrorCode is one - and a plain
     # subclass): members exactly when their integer value is in range, returned unchanged by the constructor
     import subprocess as _sp
